@@ -56,7 +56,7 @@ def run(chk):
         with cf.ThreadPoolExecutor(max_workers=12) as ex:
             for j, rows in zip(jobs, ex.map(one, jobs)):
                 for row in rows:
-                    chk.count_case([curve, j["prog"]["id"], {k: row.get(k) for k in ("kind", "cut", "tok", "cls", "which", "val")}])
+                    chk.count_case([curve, j["prog"]["id"], {k: row.get(k) for k in ("kind", "cut", "tok", "tok2", "cls", "which", "val")}])
                     chk.cov["replayed_behaviours"] += 1
                     bad = list(row.get("bad", []))
                     if row["kind"] == "size":
